@@ -70,7 +70,20 @@ def stack_effect_ok_for_capture(node):
 
 
 def raw_ok(b):
-    return b'"' not in b and b"%" not in b and not b.endswith(b"\\") and b"\0" not in b
+    """Can the bytes B stand in a raw (segment of a) literal as they are?  A raw literal has no way to say a
+    double quote or NUL; `%` is said `%%` as everywhere; a backslash is lexed together with the byte after it
+    (both are kept), so that byte must exist and be neither `%` (half of `%%`) nor a quote."""
+    if b'"' in b or b"\0" in b:
+        return False
+    i = 0
+    while i < len(b):
+        if b[i] == 0x5c:
+            if i + 1 >= len(b) or b[i + 1] in (0x25, 0x22):
+                return False
+            i += 2
+        else:
+            i += 1
+    return True
 
 
 def rewrite_here(n, rnd):
@@ -88,12 +101,19 @@ def rewrite_here(n, rnd):
         a, b = "Tmpa%d" % rnd.randint(0, 9), "Tmpb%d" % rnd.randint(0, 9)
         out.append(("infix=?(let)", ("sub", True, (), ("cat", [("let", (a,), n[1]), ("let", (b,), n[3]),
                                                               ("read", a), ("read", b), ("word", INFIXW[n[2]])]))))
-    if k == "str" and not n[2] and all(isinstance(p, bytes) and raw_ok(p) for p in n[1]) \
-            and not any(b"\\" in p for p in n[1]):
-        out.append(("raw-string", ("str", n[1], True)))
-    if k == "str" and not n[2] and len(n[1]) == 1 and isinstance(n[1][0], bytes) and raw_ok(n[1][0]) and b"\\" in n[1][0]:
-        # r"a\\nb" denotes the bytes as written, i.e. the same as "a\\\\nb"
-        out.append(("raw-string-backslash", ("str", n[1], True)))
+    if k == "str" and not n[2] and n[1] and all(raw_ok(p) for p in n[1] if isinstance(p, bytes)):
+        # r"a\\nb" denotes the bytes as written, i.e. the same as "a\\\\nb"; %%, %s and %( %) work as in any literal
+        has = lambda f: any(isinstance(p, bytes) and f(p) for p in n[1])
+        rule = "raw-string"
+        if has(lambda p: b"\\" in p):
+            rule = "raw-string-backslash"
+        elif has(lambda p: b"%" in p):
+            rule = "raw-string-percent"
+        elif any(not isinstance(p, bytes) for p in n[1]):
+            rule = "raw-string-splice"
+        out.append((rule, ("str", n[1], True)))
+        if sum(len(p) if isinstance(p, bytes) else 1 for p in n[1]) >= 2:
+            out.append(("raw-string-mixed", ("str", n[1], "mixed")))
     return out
 
 
@@ -266,6 +286,7 @@ def main(tier, seed):
     known_findings(ev)
     ev.extra["programs"] = n
     need = ["rewrite:E?=(E,)", "rewrite:if=alt", "rewrite:?(E)=([E]!=[])", "rewrite:infix=?(let)", "rewrite:raw-string",
+            "rewrite:raw-string-backslash", "rewrite:raw-string-percent", "rewrite:raw-string-splice", "rewrite:raw-string-mixed",
             "simplify:fired", "string:split", "sugar:off", "layout:ws4", "layout:nops0", "layout:nops1"]
     return finish(PID, tier, seed, ev, RULE, t0,
                   assumptions=["equivalences as stated in doc/syntax.rst; ?(E) vs ([E] != []) only where E ends by pushing a value",
